@@ -17,9 +17,11 @@ The topology of a partial load is compared (with the independent observer of bcc
 Frames are identified by content: frame i of the written trajectory has x(atom 0) = i + 0.5 nm and random other
 coordinates, so an observed frame is matched against the rows of the full load (restricted to the same atoms).
 
-Minimal witnesses: cases are enumerated by increasing number of non-default features
-{stride>1, skip>0, atom_indices, chunk=0}; a case whose feature set contains an already failing feature set of the same
-format is not evaluated again.  A (clause, feature set) that fails for EVERY format is reported once as `all-formats`.
+Minimal witnesses: every case of the bound is evaluated; the witness class of a failure is its set of non-default features
+{chunk=0|chunk>0, stride>1, skip>0|skip=N, atom_indices, files>1} plus the format; for one (format, clause) only failures whose feature
+set is minimal are reported.  A (clause, feature set) that fails for EVERY format is reported once as `all-formats`.
+Every format runs in its own interpreter with glibc heap checking switched on, so a reader that corrupts the heap is reported as a
+`crash` of the case it was evaluating instead of taking the check down (cases containing that feature set are then skipped).
 """
 import itertools
 import json
@@ -58,6 +60,24 @@ def kw_top(fmt, top):
 def top_view(top):
     from bcc.c04 import observe
     return observe(top)[0]
+
+
+def top_diff(obs_top, exp_top):
+    """None if the observer sees the same topology; 'topology-chain_id' if they differ only in chain identifiers (chunks and joined
+    loads are produced by slicing/joining, which deep-copies the topology: a loss of chain ids there is the Topology.copy finding of
+    C04 showing through -- kept as its own clause so that it is not confused with a loader defect); else 'topology'."""
+    vo, ve = top_view(obs_top), top_view(exp_top)
+    if vo == ve:
+        return None
+    for v in (vo, ve):
+        for c in v["chains"]:
+            c["chain_id"] = None
+    return "topology-chain_id" if vo == ve else "topology"
+
+
+def fresh_top():
+    from bcc.fixtures import make_topology
+    return make_topology(N_ATOMS)
 
 
 class Full:
@@ -103,22 +123,23 @@ def compare(obs, full, idx, a, what_top=True):
             return (name, np.asarray(o), np.asarray(e[idx]))
     if what_top and obs.topology is not None:
         exp_top = F.topology if a is None else F.topology.subset(a)
-        if top_view(obs.topology) != top_view(exp_top):
-            return ("topology", str(obs.topology), str(exp_top))
+        td = top_diff(obs.topology, exp_top)
+        if td:
+            return (td, top_view(obs.topology)["chains"], top_view(exp_top)["chains"])
     return None
 
 
 # ------------------------------------------------------------------------------------------------
 # feature bookkeeping (minimal witnesses)
 # ------------------------------------------------------------------------------------------------
-def feats(stride=1, skip=0, atoms=None, chunk=None, extra=()):
+def feats(stride=1, skip=0, atoms=None, chunk=None, extra=(), N=None):
     f = []
     if chunk is not None:
         f.append("chunk=0" if chunk == 0 else "chunk>0")
     if stride != 1:
         f.append("stride>1")
     if skip:
-        f.append("skip>0")
+        f.append("skip=N" if N is not None and skip >= N else "skip>0")
     if atoms is not None:
         f.append("atom_indices")
     return tuple(f) + tuple(extra)
@@ -132,7 +153,7 @@ class Recorder:
         self.nontrivial = {}
         self.samples = {}
         self.fails = []
-        self.failed_sets = {}
+        self.failed_sets = {}  # feature sets whose evaluation killed the interpreter in an earlier attempt: these (and supersets) are not run again
 
     def subsumed(self, check, f):
         return any(set(g) <= set(f) for g in self.failed_sets.get(check, ()))
@@ -146,7 +167,6 @@ class Recorder:
 
     def fail(self, check, clause, prefix, f, fmt, what, inp, observed=None, expected=None, tail=""):
         self.evals[check] = self.evals.get(check, 0) + 1
-        self.failed_sets.setdefault(check, []).append(f)
         self.fails.append(dict(check=check, clause=clause, prefix=prefix, feats=f, fmt=fmt, tail=tail, what=what, input=inp,
                                observed=_js(observed), expected=_js(expected)))
 
@@ -199,7 +219,7 @@ def case_frame(rec, path, fmt, top, full, N, seed, i, a, via):
 
 
 def case_iterload(rec, path, fmt, top, full, N, seed, c, s, k, a):
-    f = feats(stride=s, skip=k, atoms=a, chunk=c)
+    f = feats(stride=s, skip=k, atoms=a, chunk=c, N=N)
     if rec.subsumed("iterload", f):
         return
     inp = {"check": "iterload", "fmt": fmt, "N": N, "seed": seed, "chunk": c, "stride": s, "skip": k, "atoms": a}
@@ -247,10 +267,22 @@ def case_list(rec, paths, fulls, fmt, top, seed, sel, s, a):
         return
     inp = {"check": "list", "fmt": fmt, "seed": seed, "files": list(sel), "stride": s, "atoms": a}
     call = f"md.load([{len(sel)} {fmt} files with {[fulls[j].N for j in sel]} frames], stride={s}, atom_indices={a})"
+    mytop = fresh_top()  # a Topology object of the caller's, used for this one call only
+    before = top_view(mytop)
     try:
-        obs = md.load([paths[j] for j in sel], stride=s, atom_indices=a, **kw_top(fmt, top))
+        obs = md.load([paths[j] for j in sel], stride=s, atom_indices=a, **kw_top(fmt, mytop))
     except Exception as e:
         rec.fail("list", "load-list-raises", "load-list", f, fmt, f"{call} raised {type(e).__name__}: {e}", inp, tail=type(e).__name__)
+        return
+    # the caller's topology object must still be the same topology and still work (its subset of one atom has one atom)
+    try:
+        after_ok = top_view(mytop) == before and mytop.subset([0]).n_atoms == 1 and mytop.subset([0, 1, 2]).n_atoms == 3
+    except Exception:
+        after_ok = False
+    if not after_ok:
+        rec.fail("list", "load-list-corrupts-caller-topology", "load-list", f, fmt,
+                 f"{call}: afterwards the Topology object passed as top= is no longer usable: top.subset([0]) has {mytop.subset([0]).n_atoms} atoms, "
+                 f"top.subset([0,1,2]) has {mytop.subset([0, 1, 2]).n_atoms}", inp, [mytop.subset([0]).n_atoms, mytop.subset([0, 1, 2]).n_atoms], [1, 3])
         return
     parts = [fulls[j].t for j in sel]
     ex = np.concatenate([p.xyz[::s] if a is None else p.xyz[::s][:, a] for p in parts])
@@ -274,8 +306,9 @@ def case_list(rec, paths, fulls, fmt, top, seed, sel, s, a):
                 break
         if not bad:
             exp_top = parts[0].topology if a is None else parts[0].topology.subset(a)
-            if obs.topology is None or top_view(obs.topology) != top_view(exp_top):
-                bad = ("topology", str(obs.topology), str(exp_top))
+            td = "topology" if obs.topology is None else top_diff(obs.topology, exp_top)
+            if td:
+                bad = (td, str(obs.topology), str(exp_top))
     if bad:
         rec.fail("list", "load-list-" + bad[0], "load-list", f, fmt, f"{call}: {bad[0]} differ from the concatenation of the individual loads", inp, bad[1], bad[2])
     else:
@@ -291,7 +324,7 @@ def _open(path, fmt):
 
 def _frame_ids(res, fmt):
     if fmt == "h5":
-        xyz = res.coordinates
+        xyz = res.coordinates if not isinstance(res, list) else np.zeros((0, 1, 3))
     elif isinstance(res, tuple):
         xyz = res[0]
     else:
@@ -318,8 +351,7 @@ def case_window(rec, path, fmt, N, seed, k, n, s):
         return
     try:
         try:
-            if k:
-                h.seek(k)
+            h.seek(k)  # also for k = 0: a class that does not offer seek has no cursor to check
             first = _frame_ids(h.read(n, stride=s), fmt)
         except NotImplementedError:
             return  # seek/strided read not offered by this class: no cursor to check
@@ -403,7 +435,7 @@ def worker(args):
                 for s in STRIDES:
                     for k in range(0, N + 1):
                         for a in ATOM_SUBSETS:
-                            cases.append((len(feats(stride=s, skip=k, atoms=a, chunk=c)) - (1 if c else 0.5), (N, s, c, k, len(a or ())), ("iterload", N, c, s, k, a)))
+                            cases.append((len(feats(stride=s, skip=k, atoms=a, chunk=c, N=N)) - (1 if c else 0.5), (N, s, c, k, len(a or ())), ("iterload", N, c, s, k, a)))
         # ---- file-object windows
         if fmt != "pdb":
             for N in files:
@@ -431,7 +463,7 @@ def worker(args):
                 lst = [write_file(d, fmt, N, seed + 7 * j, tag="L%d_" % j) for j, N in enumerate((2, 3, 4))]
                 paths = [p for p, _ in lst]
                 top = lst[0][1]
-                fulls = [Full(p, fmt, top) for p in paths]
+                fulls = [Full(p, fmt, fresh_top()) for p in paths]
             except Exception as e:
                 fulls = None
             if fulls and all(fl.N == n for fl, n in zip(fulls, (2, 3, 4))):
@@ -480,7 +512,7 @@ def _case_record(fmt, seed, case):
         return "frame", feats(atoms=a), {"check": "frame", "fmt": fmt, "N": N, "seed": seed, "frame": i, "atoms": a, "via": via}, "load_frame"
     if kind == "iterload":
         _, N, c, s, k, a = case
-        return "iterload", feats(stride=s, skip=k, atoms=a, chunk=c), {"check": "iterload", "fmt": fmt, "N": N, "seed": seed, "chunk": c, "stride": s, "skip": k, "atoms": a}, "iterload"
+        return "iterload", feats(stride=s, skip=k, atoms=a, chunk=c, N=N), {"check": "iterload", "fmt": fmt, "N": N, "seed": seed, "chunk": c, "stride": s, "skip": k, "atoms": a}, "iterload"
     if kind == "window":
         _, N, k, n, s = case
         return "window", feats(stride=s, skip=k), {"check": "window", "fmt": fmt, "N": N, "seed": seed, "skip": k, "n": n, "stride": s}, "file.read"
@@ -552,7 +584,7 @@ def run(tier, seed, hint, only=None, formats=None):
                       rule="exhaustive; exact comparison with NumPy slicing of the full load of the same file; non-trivial = stride>1 or atom subset or frame>0",
                       stands_in_for="per-format read(n_frames, stride, atom_indices) and loader obligations resting on assumed third-party slicing / C readers", exhaustive=True),
         "iterload": Check(*CHECKS["iterload"], bound=nb + f"chunk in 0..N+1 x stride in {STRIDES} x skip in 0..N x atom_indices in {ATOM_SUBSETS}",
-                          rule="exhaustive (minus supersets of already failing feature sets); chunk sizes and exact equality of the concatenation with full[skip::stride]; "
+                          rule="exhaustive; chunk sizes and exact equality of the concatenation with full[skip::stride]; "
                                "non-trivial = chunk not a multiple of stride, chunk=1, chunk>N or skip>0",
                           stands_in_for="iterload loop invariant over C-backed and text readers", exhaustive=True),
         "list": Check(*CHECKS["list"], bound=f"formats={fmts}; three files of 2,3,4 frames; all ordered selections of 1..3 distinct files x stride in (1,2,3) x atom_indices in (None,[1,3],[0,2,4])",
@@ -571,7 +603,14 @@ def run(tier, seed, hint, only=None, formats=None):
             for fmt, rec in ex.map(lambda j: isolated(j, scratch), jobs):
                 results[fmt] = rec
     # merge; collapse (clause, feature set) failing in every format
-    allfails = [f for fmt in fmts for f in results[fmt].fails]
+    allfails = []
+    for fmt in fmts:
+        fl = results[fmt].fails
+        for f in fl:
+            same = [g for g in fl if (g["check"], g["clause"], g["tail"]) == (f["check"], f["clause"], f["tail"])]
+            if any(set(g["feats"]) < set(f["feats"]) for g in same):
+                continue  # a case with fewer non-default features already violates the same clause: report the minimal ones
+            allfails.append(f)
     by = {}
     for f in allfails:
         by.setdefault((f["check"], f["clause"], f["prefix"], f["feats"], f["tail"]), set()).add(f["fmt"])
@@ -579,7 +618,7 @@ def run(tier, seed, hint, only=None, formats=None):
         rec = results[fmt]
         for key in ("load", "frame", "iterload", "list", "window"):
             chk = checks["load" if key == "frame" else key]
-            n_ok = rec.evals.get(key, 0) - sum(1 for f in rec.fails if f["check"] == key)
+            n_ok = rec.evals.get(key, 0) - sum(1 for f in allfails if f["check"] == key and f["fmt"] == fmt)
             chk.evaluations += n_ok
             for i in range(rec.nontrivial.get(key, 0)):
                 chk._distinct.add((fmt, key, i))
